@@ -70,7 +70,7 @@ class C03(Check):
         cls, rec = G.gen_content(rng, cls)
         if cls == 'polyglot' and rng.random() < 0.15:
             # two full images: an ISO carrying another header
-            rec['p']['sigs'] = list(set(rec['p']['sigs']) | {'iso'})
+            rec['p']['sigs'] = sorted(set(rec['p']['sigs']) | {'iso'})
             rec['p']['total'] = max(rec['p']['total'], 34 * 1024 + 7)
         data, info = F.build(rec)
         n = len(data)
